@@ -130,6 +130,8 @@ def run(ctx, chk, tier="quick"):
     )
     chk.assumptions = ["numpy.linalg.solve solves the system it is given", "conditioning / singularity are not decided"]
     # ---------------- O6: the tables written hold the fit (offset of each interval, crossing under the level that keys it)
+    from ..sqlrules import conflict_clauses as _cc
+    _cc(ctx, chk, "C05.O6", ("rise", "recession", "zeta_grid"), "curve-writes", "a second pass after the grid (or the classification) changed overwrites only the keys it writes again: crossing rows and offsets of the first pass survive, so the per-level means of the tables mix two fits and the residuals of an interval no longer sum to zero")
     from .c13 import stored_rows_lineage
     stored_rows_lineage(ctx, chk, "C05.O6")
     f = ctx.func("fit_offsets.find_offsets")
